@@ -142,7 +142,7 @@ CLAIMED = {
              'the symbol from data + error codewords (placement, fixed corner pattern, finder/clock/alignment) and decoding the pixels '
              '(strict parsing, placement read-out, error correction) hands exactly the data codewords to the data decoder -- composition of '
              'C06, C07 (table, bijection, values), C08 (parse of rendering) and the weight-0 case of the error decoder; so the two observation '
-             'routes of the property agree for every input and configuration (C01_routes_agree). C01_ascii_plan_roundtrip / C01_ascii_only_roundtrip: the data layer for every byte string and list whenever the plan is "stay in ASCII" (encoder theorem composed with C04), which is proved to be the only possible answer of the optimiser when only ASCII is enabled; C01_base256_only_roundtrip: likewise for the Base256-only configuration (plan "Base256 to the end", length field in all three forms) -- and C01_ab_plan_roundtrip / C01_ascii_base256_roundtrip: for EVERY plan that uses only ASCII and Base256, whatever its switch positions (so, with the crate\'s optimiser, whose plans name enabled modes only, for every mode set within {ASCII, Base256}) -- and C01_ax_plan_roundtrip / C01_ax_modes_roundtrip / C01_macro_ax_roundtrip / C01_fnc1_ax_roundtrip: the same for every plan over ASCII and X12 (Proofs/EncAX.v), hence for the mode sets {X12} and {ASCII, X12}, and C01_ac_modes_roundtrip / C01_macro_ac_roundtrip / C01_fnc1_ac_roundtrip for every plan over ASCII and C40, or ASCII and Text (Proofs/EncAC.v: padded flush of the pending values, the end-of-data cases b-d with the already written shift values of the last character as a legal fill), hence {C40}, {ASCII, C40}, {Text}, {ASCII, Text} -- for these nine mode sets (every set with at most one mode beside ASCII, except EDIFACT, plus {ASCII, Base256}) the whole property is a theorem; and C01_mixed_plan_roundtrip / C01_mixed_plan_test / C01_mixed_plan_macro / C01_mixed_plan_fnc1 (Proofs/EncMulti.v): for ANY planner and ANY mode set, the default configuration included, whenever the plan mixes only ASCII, Base256, X12, C40 and Text and no non-ASCII run starts within the last two characters (a test on the plan, p5b; the C18 check counts the share of generated cases inside it). PARTIAL: the data layer under plans that use C40/Text/X12/EDIFACT, '
+             'routes of the property agree for every input and configuration (C01_routes_agree). C01_ascii_plan_roundtrip / C01_ascii_only_roundtrip: the data layer for every byte string and list whenever the plan is "stay in ASCII" (encoder theorem composed with C04), which is proved to be the only possible answer of the optimiser when only ASCII is enabled; C01_base256_only_roundtrip: likewise for the Base256-only configuration (plan "Base256 to the end", length field in all three forms) -- and C01_ab_plan_roundtrip / C01_ascii_base256_roundtrip: for EVERY plan that uses only ASCII and Base256, whatever its switch positions (so, with the crate\'s optimiser, whose plans name enabled modes only, for every mode set within {ASCII, Base256}) -- and C01_ax_plan_roundtrip / C01_ax_modes_roundtrip / C01_macro_ax_roundtrip / C01_fnc1_ax_roundtrip: the same for every plan over ASCII and X12 (Proofs/EncAX.v), hence for the mode sets {X12} and {ASCII, X12}, and C01_ac_modes_roundtrip / C01_macro_ac_roundtrip / C01_fnc1_ac_roundtrip for every plan over ASCII and C40, or ASCII and Text (Proofs/EncAC.v: padded flush of the pending values, the end-of-data cases b-d with the already written shift values of the last character as a legal fill), hence {C40}, {ASCII, C40}, {Text}, {ASCII, Text} -- for these nine mode sets (every set with at most one mode beside ASCII, except EDIFACT, plus {ASCII, Base256}) the whole property is a theorem; and C01_mixed_plan_roundtrip / C01_mixed_plan_test / C01_mixed_plan_macro / C01_mixed_plan_fnc1 / C01_mixed_plan_default_options (Proofs/EncMulti.v): for ANY planner and ANY mode set, the default configuration included, whenever the plan mixes only ASCII, Base256, X12, C40 and Text and no non-ASCII run starts within the last two characters (a test on the plan, p5b; the C18 check counts the share of generated cases inside it). PARTIAL: the data layer under plans that use C40/Text/X12/EDIFACT, '
              'decode_data(data codewords of encode(x)) = x for every x and configuration, is the composition of C02 and C04 and is not yet a '
              'theorem. The check evaluates it on every case: structured inputs x symbol lists x 63 mode subsets x macro x FNC1 are encoded and '
              'decoded both ways by the implementation (and by the correspondence-tied model) and compared with the input. Eight round-trip '
